@@ -11,9 +11,11 @@ RULE = ("three-round runs for drawn (country|world, options) with the shut-off f
         "other families free; from the captured rounds: (a) final percent fed < T - 0.1 => feed + biofuel taken from human-edible food <= "
         "0.1 percent-fed-equivalent in every month and final >= no-feed result - 0.1; (b) no-feed result >= T => final >= T - 0.1; (c) in "
         "every round and month feed and biofuel used <= the demand schedule recomputed from the scenario constants, and zero from the "
-        "shut-off month on.  Non-trivial = run with non-zero demand in which the feed round executed, or in which the no-feed result is "
+        "shut-off month on (2e-6 relative; largest excess on the unchanged tree 3e-8).  The extreme rows of the input table are always run "
+        "under two thresholds, and every third run is repeated with T right next to its no-feed result.  Non-trivial = run with non-zero demand in which the feed round executed, or in which the no-feed result is "
         "below T; distinct by (iso3, options).")
 ASSUMPTIONS = ["'essentially no' = 0.1 percent-fed-equivalent per month and 0.1 percentage points, the grace the model's own (non-raising) validators use",
+               "use above the demand schedule: 2e-6 relative + 1e-6 billion kcal; after the shut-off month: 1e-6 + 2e-6 x the largest monthly demand",
                "demand schedule = annual feed / biofuel use / 12 for the configured number of months, zero afterwards"]
 GRACE = 0.1
 SHUTOFFS = ["one_month_delayed_shutoff", "short_delayed_shutoff", "long_delayed_shutoff", "continued", "continued_after_10_percent_fed",
